@@ -988,14 +988,18 @@ func ruleC14_3(c *Ctx, r *Rep) {
 		if s.Fn == ex || len(s.Terms) != 1 {
 			continue
 		}
-		cl := s.Fn // closure
-		// inside the closure: dominates its nil returns
-		okIn := true
-		for _, ret := range returnsOf(cl) {
-			if returnsNilError(ret) && !instrDominates(s.Terms[0].Call, ret) {
-				okIn = false
+		// the closure handed to runTx that certainly executes the refresh: the statement's own function, or a closure
+		// whose every successful return is preceded by a call of the private helper that does
+		var cl *ssa.Function
+		for _, a := range ex.AnonFuncs {
+			if mustExecBeforeSuccess(c, a, s.Terms[0].Call, 0) {
+				cl = a
 			}
 		}
+		if cl == nil {
+			continue
+		}
+		okIn := true
 		// the closure is passed to runTx, and that call dominates every nil return and the wait loop of execute
 		mc := makeClosureOf(cl)
 		if mc == nil || !okIn {
@@ -1031,6 +1035,43 @@ func ruleC14_3(c *Ctx, r *Rep) {
 		}
 	}
 	r.Check("C14.3", "C14.3:refresh-first@"+fnPullExec, ex.Pos(), okE, "the pull refreshes the expiry in its own committed transaction before it may wait", "a pull that ends by cancellation/timeout while waiting does not restart the subscription's expiration clock (no refresh transaction before the wait loop)")
+}
+
+// mustExecBeforeSuccess: every return of f that may report success (nil error) is preceded by `term` — directly, or
+// through a call of a private helper of which the same holds.
+func mustExecBeforeSuccess(c *Ctx, f *ssa.Function, term *ssa.Call, depth int) bool {
+	if depth > 2 || len(f.Blocks) == 0 {
+		return false
+	}
+	var points []ssa.Instruction
+	if term.Parent() == f {
+		points = append(points, term)
+	}
+	for _, ci := range callsIn(f, false, func(cal *ssa.Function, _ ssa.CallInstruction) bool {
+		return c.inModule(cal) && len(cal.Blocks) > 0 && cal.Object() != nil && !cal.Object().Exported() && !c.EntShape().isGenerated(cal)
+	}) {
+		if call, ok := ci.(*ssa.Call); ok && mustExecBeforeSuccess(c, call.Call.StaticCallee(), term, depth+1) {
+			points = append(points, call)
+		}
+	}
+	if len(points) == 0 {
+		return false
+	}
+	for _, ret := range returnsOf(f) {
+		if !mayReturnNilError(ret) {
+			continue
+		}
+		covered := false
+		for _, p := range points {
+			if instrDominates(p, ret) {
+				covered = true
+			}
+		}
+		if !covered {
+			return false
+		}
+	}
+	return true
 }
 
 func ruleC14_4(c *Ctx, r *Rep) {
